@@ -3,7 +3,7 @@
    meaning uses.  The end-of-needed offsets of well-formed files are the `rest` components of the
    round-trip theorems of C05/C06 (WebpProofs: the unread remainder is exactly the body). *)
 From Coq Require Import List NArith. From Coq Require Import Strings.Byte.
-From PrismV Require Import IO.IO IO.IOTheory IO.Parse IO.IOTheory2 Meta.Meta Meta.MetaProofs Meta.WebpProofs Meta.ReadAhead.
+From PrismV Require Import IO.IO IO.IOTheory IO.Parse IO.IOTheory2 Meta.Meta Meta.MetaProofs Meta.WebpProofs Meta.PngProofs Meta.JpegProofs Meta.ReadAhead IO.Encode.
 Import ListNotations.
 
 Theorem C18_readahead_bound : forall inflate (A : Type) (p : prog A) (r : src),
@@ -19,3 +19,35 @@ Theorem C18_webp_vp8 : forall inflate total len t0 t1 t2 w sx h sy body fuel r,
   pulled inflate (webp_prog fuel) r <= 30 + 4095.
 Proof. exact webp_vp8_pulled. Qed.
 Print Assumptions C18_webp_vp8.
+
+(* PNG without a profile: the needed prefix ends with the first IDAT/IEND chunk header; whatever follows
+   it (the pixel data) contributes at most the 4095 bytes of read-ahead *)
+Theorem C18_png : forall inflate w h depth rest crc ancs endlen endty body fuel r,
+  (w < 4294967296)%N -> (h < 4294967296)%N -> length crc = 4 -> (lenN (ihdr_data w h depth rest) < 4294967296)%N ->
+  Forall anc_ok ancs -> (endlen < 4294967296)%N -> (endty = ty_IDAT \/ endty = ty_IEND) ->
+  length ancs + 2 <= fuel -> length rest <= fuel -> Forall (fun a => length (a_data a) <= fuel) ancs ->
+  nofail r -> src_data r = png_file w h depth rest crc ancs endlen endty body ->
+  pulled inflate (png_prog fuel) r <= length (png_head w h depth rest crc ancs endlen endty) + 4095.
+Proof. exact png_pulled. Qed.
+Print Assumptions C18_png.
+
+(* PNG with a profile: nothing after the iCCP chunk is needed *)
+Theorem C18_png_icc : forall inflate w h depth rest crc ancs1 name z icrc tail profile fuel r,
+  (w < 4294967296)%N -> (h < 4294967296)%N -> length crc = 4 -> (lenN (ihdr_data w h depth rest) < 4294967296)%N ->
+  Forall anc_ok ancs1 -> name_ok name -> z <> [] -> length icrc = 4 -> (lenN (iccp_data name z) < 4294967296)%N ->
+  inflate z = Some profile -> profile <> [] ->
+  length ancs1 + 2 <= fuel -> length rest <= fuel -> Forall (fun a => length (a_data a) <= fuel) ancs1 ->
+  nofail r -> src_data r = png_file_icc w h depth rest crc ancs1 name z icrc tail ->
+  pulled inflate (png_prog fuel) r <= length (png_head_icc w h depth rest crc ancs1 name z icrc) + 4095.
+Proof. exact png_icc_pulled. Qed.
+Print Assumptions C18_png_icc.
+
+(* JPEG: the needed prefix ends with the SOS segment; the entropy-coded data is not read *)
+Theorem C18_jpeg : forall inflate pre post t p h1 h2 w1 w2 more sos body fuel r,
+  let items := jpeg_plain_items pre post t p h1 h2 w1 w2 more in
+  Forall passive pre -> Forall passive post -> (t = 0xc0 \/ t = 0xc2)%N ->
+  Forall item_ok items -> seg_ok 0xda sos -> length items < fuel ->
+  nofail r -> src_data r = jpeg_file items sos body ->
+  pulled inflate (jpeg_prog fuel) r <= length (jpeg_head items sos) + 4095.
+Proof. exact jpeg_pulled. Qed.
+Print Assumptions C18_jpeg.
